@@ -7,19 +7,22 @@ Open Scope R_scope.
 
 Ltac resolve_ifs :=
   repeat match goal with
-  | |- context [Rlt_dec ?a ?b] =>
-      destruct (Rlt_dec a b) as [?H|?H];
-      [ try (exfalso; apply (Rlt_not_le _ _ H); interval with (i_prec 80))
-      | try (exfalso; apply H; interval with (i_prec 80)) ]
-  | |- context [Rle_dec ?a ?b] =>
-      destruct (Rle_dec a b) as [?H|?H];
-      [ try (exfalso; apply (Rle_not_lt _ _ H); interval with (i_prec 80))
-      | try (exfalso; apply H; interval with (i_prec 80)) ]
   | |- context [Req_EM_T ?a ?b] =>
-      destruct (Req_EM_T a b) as [?H|?H];
-      [ try (exfalso; revert H; apply Rlt_not_eq; interval with (i_prec 80));
-        try (exfalso; revert H; apply Rgt_not_eq; interval with (i_prec 80))
-      | try (exfalso; apply H; lra) ]
+      let Hn := fresh "Hif" in
+      destruct (Req_EM_T a b) as [Hn|Hn];
+      [ try (exfalso; revert Hn; apply Rlt_not_eq; interval with (i_prec 80));
+        try (exfalso; revert Hn; apply Rgt_not_eq; interval with (i_prec 80))
+      | try (exfalso; apply Hn; lra) ]
+  | |- context [Rlt_dec ?a ?b] =>
+      let Hn := fresh "Hif" in
+      destruct (Rlt_dec a b) as [Hn|Hn];
+      [ try (exfalso; apply (Rlt_not_le _ _ Hn); interval with (i_prec 80))
+      | try (exfalso; apply Hn; interval with (i_prec 80)) ]
+  | |- context [Rle_dec ?a ?b] =>
+      let Hn := fresh "Hif" in
+      destruct (Rle_dec a b) as [Hn|Hn];
+      [ try (exfalso; apply (Rle_not_lt _ _ Hn); interval with (i_prec 80))
+      | try (exfalso; apply Hn; interval with (i_prec 80)) ]
   end.
 
 Ltac corr_solve := unfold Rmin, Rmax; resolve_ifs; interval with (i_prec 90).
